@@ -219,10 +219,15 @@ func generate(
 			}
 
 			if isNotAllowed(model, stopPositions[positionIdx-1].Stop(), stopPositions[positionIdx-1].Next()) {
+				sameLocation := combination[positionIdx] == combination[positionIdx-1]
 				combination = combination[:positionIdx]
-				if stopPositions[positionIdx-1].nextStopIndex != stopPositions[positionIdx].previousStopIndex {
+				if !sameLocation {
+					// the previous stop of the unit is followed by a planned stop
+					// it must not be followed by, wherever this stop goes
 					break
 				}
+				// the two stops of the unit must not be neighbours: this stop
+				// can still go further down
 				continue
 			}
 		}
